@@ -104,3 +104,30 @@ func VerifC07ExpandValue() {
 	vReach("expanded")
 	vAssert(out.String() == want, "C07 a definition's value is pasted exactly as typed (pure textual substitution)")
 }
+
+// VerifParseKind exposes the parser's classification of one (already left-trimmed) line to the harnesses of other
+// packages: 0 regular, 1 empty, 2 comment, 3 definition, 4 include, 5 include-except, 6 flags, 7 prefix, 8 suffix.
+// Map iteration order as in parseLine itself (symbolic unless the job fixes it).
+func VerifParseKind(l string) int {
+	switch NewParser(nil, strings.NewReader("")).parseLine(l).parsedType {
+	case regular:
+		return 0
+	case empty:
+		return 1
+	case comment:
+		return 2
+	case definition:
+		return 3
+	case include:
+		return 4
+	case includeExcept:
+		return 5
+	case flags:
+		return 6
+	case prefix:
+		return 7
+	case suffix:
+		return 8
+	}
+	return -1
+}
